@@ -247,9 +247,66 @@ fn run_pair(ctx: &mut Ctx, c: &Value) -> Result<(), (String, String)> {
     Ok(())
 }
 
+/// A claim is the union of the blocks the extension lists, however they are listed: a certificate whose list repeats part of
+/// an earlier block (a block nested in its predecessor - nothing the library's own encoder writes, any other encoder may) claims
+/// the whole of it.  Under an issuer that holds only the nested part it over-claims; under one that holds it all the validated
+/// resources are the whole block.
+fn noncanonical_claims(s: &mut Summary) {
+    let rc = |c: &str, a: &[&str]| ResChoice { c: c.to_string(), s: a.iter().map(|x| x.to_string()).collect() };
+    use rpki::repository::resources::{AsBlock, AsBlocks, AsResources, Asn, IpBlock, IpBlocks, IpResources, Prefix};
+    let pki = Pki::new(2);
+    let router = router_identity();
+    let now = time_of(1);
+    let asr = |a: u32, b: u32| AsBlock::from((Asn::from_u32(a), Asn::from_u32(b)));
+    let v4 = |t: &str| IpBlock::from(Prefix::from_v4_str(t).unwrap());
+    // (family, what the child is built with, octets to find, octets to put, the whole claim, the nested part)
+    let as_built: AsBlocks = [asr(64496, 64511), AsBlock::Id(Asn::from_u32(64600))].into_iter().collect();
+    let as_whole: AsBlocks = [asr(64496, 64511)].into_iter().collect();
+    let as_part: AsBlocks = [asr(64496, 64500)].into_iter().collect();
+    let v4_built: IpBlocks = [v4("10.0.0.0/8"), v4("12.0.0.0/16")].into_iter().collect();
+    let v4_whole: IpBlocks = [v4("10.0.0.0/8")].into_iter().collect();
+    let v4_part: IpBlocks = [v4("10.0.0.0/16")].into_iter().collect();
+    for fam in ["as", "v4"] {
+        let res = |a: &AsBlocks, b: &IpBlocks| if fam == "as" { (IpResources::missing(), IpResources::missing(), AsResources::blocks(a.clone())) } else { (IpResources::blocks(b.clone()), IpResources::missing(), AsResources::missing()) };
+        let mk = |kind: &str, key: &str, sig: &str, raw| CertParams { kind: kind.into(), key: key.into(), sig_key: sig.into(), aki: if kind == "ta" { "none".into() } else { sig.into() },
+            ski_ok: true, tamper: "none".into(), nb: 0, na: 2, policy: "refuse".into(), v4: rc("missing", &[]), v6: rc("missing", &[]), asn: rc("missing", &[]), serial: 9, raw: Some(raw), validity: None };
+        let r = guarded(|| -> Result<(), String> {
+            let child = build_cert(&pki, &mk("ca", "k1", "k0", res(&as_built, &v4_built)), &router);
+            // AS64600 -> AS64500 (inside AS64496-AS64511) resp. 12.0.0.0/16 -> 10.0.0.0/16 (not 11.0.0.0/16: that touches 10.0.0.0/8 and the two would be written as one range) (inside 10.0.0.0/8), signed again
+            let (from, to): (&[u8], &[u8]) = if fam == "as" { (&[0x02, 0x03, 0x00, 0xFC, 0x58], &[0x02, 0x03, 0x00, 0xFB, 0xF4]) } else { (&[0x03, 0x03, 0x00, 0x0C, 0x00], &[0x03, 0x03, 0x00, 0x0A, 0x00]) };
+            let child = resign_with(&child, &pki, "k0", |tbs| {
+                let pos = tbs.windows(from.len()).position(|w| w == from).expect("harness: the block to move is in the certificate");
+                tbs[pos..pos + from.len()].copy_from_slice(to);
+            });
+            let child = match Cert::decode(Bytes::from(child)) { Ok(c) => c, Err(_) => return Ok(()) };   // refusing such a list outright is fine
+            if std::env::var("VH_DEBUG").is_ok() { eprintln!("decoded child: v4 {:?} as {:?}", child.v4_resources(), child.as_resources()); }
+            for (what, holds, want_ok) in [("the whole block", res(&as_whole, &v4_whole), true), ("only the nested part", res(&as_part, &v4_part), false)] {
+                let ta = Cert::decode(Bytes::from(build_cert(&pki, &mk("ta", "k0", "k0", holds), &router))).map_err(|e| e.to_string())?
+                    .validate_ta_at(TalInfo::from_name("t".into()).into_arc(), true, now).map_err(|e| format!("harness: TA does not validate: {e}"))?;
+                match child.clone().validate_ca_at(&ta, true, now) {
+                    Ok(rc) => {
+                        if !want_ok { return Err(format!("accepted under an issuer that holds {what}")); }
+                        let ok = if fam == "as" { rc.as_resources() == &as_whole } else { rc.v4_resources() == &v4_whole };
+                        if !ok { return Err(format!("validated resources are not the claimed block: as {} v4 {}", rc.as_resources(), rc.v4_resources().as_v4())); }
+                    }
+                    Err(e) => if want_ok { return Err(format!("refused under an issuer that holds {what}: {e}")); },
+                }
+            }
+            Ok(())
+        });
+        match r {
+            Ok(Ok(())) => {}
+            Ok(Err(m)) => s.violation(&format!("noncanonical:{fam}"), format!("a certificate listing a block and then a block nested in it: {m}"), json!({"fam": fam})),
+            Err(m) => s.violation("panic", m, json!({"noncanonical": fam})),
+        }
+        s.evals(1);
+    }
+}
+
 pub fn replay(args: &[String]) {
     let cases = read_cases(&args[0]);
     let mut s = Summary::new();
+    noncanonical_claims(&mut s);
     let mut ctx = Ctx::new();
     let mut chain_no = 0usize;
     for c in &cases {
